@@ -1923,8 +1923,24 @@ class Interp:
         else:
             self.exec_block(s.orelse, fr)
 
+    def _live_list_iter(self, it):
+        """Python iterates a list by index and re-reads it at every step, so a body that
+        removes or appends elements changes which elements are visited."""
+        o = self.heap[it.addr]
+        i = 0
+        while o.items is not None and i < len(o.items):
+            yield o.items[i]
+            i += 1
+            if i > 10000:
+                raise AnalysisError("runaway iteration over a growing list")
+
     def s_For(self, s, fr):
-        items = self.iterate(self.eval(s.iter, fr), s.iter)
+        itv = self.force(self.eval(s.iter, fr))
+        if isinstance(itv, Ref) and isinstance(self.heap.get(itv.addr), AList) and self.heap[itv.addr].items is not None \
+                and self.heap[itv.addr].kind == "list":
+            items = self._live_list_iter(itv)
+        else:
+            items = self.iterate(itv, s.iter)
         broke = False
         for x in items:
             self.assign(s.target, x, fr, s)
